@@ -44,6 +44,11 @@ def takeWord : Str → Str × Str
   | [] => ([], [])
   | c :: cs => if isWord c then let r := takeWord cs; (c :: r.1, r.2) else ([], c :: cs)
 
+/-- the `name` group `#|\w*` : (name, rest) -/
+def nameGroup : Str → Str × Str
+  | '#' :: u => (['#'], u)
+  | u => takeWord u
+
 /-- `\s*(-?)CLOSE` at the head of `t` : (hyphen?, total length consumed) -/
 def closeAt? (close : Str) (t : Str) : Option (Bool × Nat) :=
   let sp := skipSpaces t
@@ -166,9 +171,7 @@ def matchAt (d : Delims) (pos : Nat) (c : Char) (r : Str) : Match :=
       let h := optHyphen t1
       let sp := skipSpaces h.2
       -- `(?P<name>#|\w*)`
-      let nm : Str × Str := match sp.2 with
-        | '#' :: u => (['#'], u)
-        | u => takeWord u
+      let nm : Str × Str := nameGroup sp.2
       let sp2 := skipSpaces nm.2
       match findFirst (closeAt? d.tagE) sp2.2 with
       | none => none
